@@ -45,6 +45,21 @@ def _orphans(run: cs.Run, left: dict, uid: str | None) -> bool:
     return bool(left) and all(not [c for c in run.world.calls if c['handler'] == h and c['uid'] == uid] for h in left)
 
 
+def orphaned_daemons(run: cs.Run) -> list[dict]:
+    """Daemon instances of objects that have DISAPPEARED (a DELETED event was delivered for their uid: forced removal,
+    recreation under the same name) and that were still running afterwards having swallowed a cancellation: the object's
+    memory is forgotten on the DELETED event and no further cycle exists for it, so the staged stop (flag, cancel after the
+    backoff, abandon after the timeout) never proceeds and the daemon killer cannot reach them (findings F7 / F702)."""
+    assert run.world is not None
+    w = run.world
+    gone_at = {ev['object']['metadata']['uid']: ev['order'] for ev in w.api.events if ev['type'] == 'DELETED'}
+    out = []
+    for c in w.calls:
+        if c['kind'] == 'daemon' and c['uid'] in gone_at and c.get('ignored') and (c.get('end_order') is None or c['end_order'] > gone_at[c['uid']]):
+            out.append({k: c.get(k) for k in ('handler', 'uid', 'inc', 't', 'flag_at', 'ignored', 'ended')})
+    return out
+
+
 def f6_landing(run: cs.Run, uid: str | None) -> bool:
     """Did an accepted framework write that was issued before this object (uid) existed land on it?  (F6)"""
     assert run.world is not None
@@ -173,7 +188,7 @@ def mon_c03(ctx: Any, run: cs.Run) -> None:
     w = run.world
     assert w is not None
     if run.error:
-        ctx.fail('the closed loop crashed or stalled', _case(run), observed=run.error, sig='crash')
+        ctx.fail('the closed loop crashed or stalled', _case(run, orphaned_unstoppable_daemons=orphaned_daemons(run)), observed=run.error, sig='crash')
         return
     if not run.quiescent:
         ctx.fail('handling did not terminate after changes and failures stopped', _case(run), sig='no-convergence')
